@@ -1594,6 +1594,11 @@ func (e *executor) executeRowBSIGroupShard(ctx context.Context, index string, c 
 			return nil, errors.New("Row(): BETWEEN condition requires exactly two integer values")
 		}
 
+		// An inverted interval holds no value.
+		if predicates[0] > predicates[1] {
+			return NewRow(), nil
+		}
+
 		// The reason we don't just call:
 		//     return f.RowBetween(fieldName, predicates[0], predicates[1])
 		// here is because we need the call to be shard-specific.
